@@ -156,5 +156,36 @@ def cmdRun (j : Json) : Json :=
             Json.mkObj [("phase", ph), ("v", .arr (v.map Wire.out)), ("i", .arr (i.map Wire.out))]).toArray)]
           ++ tableOut t)
 
+/-- damped iteration `x ← x + λ (Φ(x) − x)` of the model's sweep map `Φ`, `k` times -/
+def relaxLoop (s : SSys α) (ph : String) (lam : α) : Nat → Vec α → Vec α → St → Except Err (Vec α × Vec α × St)
+  | 0, v, i, st => .ok (v, i, st)
+  | k + 1, v, i, st => do
+    let (v', st') ← s.fwdProp ph v i st
+    let i' := s.backProp ph v' i st
+    let mix := fun (a b : Vec α) => Array.zipWith (fun x y => x + lam * (y - x)) a b
+    relaxLoop s ph lam k (mix v v') (mix i i') st'
+
+/-- `relax`: an independent route to a steady state (used only to decide whether a modest-drop steady state EXISTS when
+    `solve()` raised: the liveness clause of C03 is conditional on that).  Returns the table assembled from the relaxed
+    vectors and the one-more-sweep vectors, so that the caller can judge convergence and the size of the drops. -/
+def cmdRelax (j : Json) : Json :=
+  match ssysOf (α := α) ((j.getObjVal? "sys").toOption.getD .null) with
+  | .error (n, e) => Json.mkObj [("ok", false), ("ctor_error", errOut e), ("comp", n)]
+  | .ok s =>
+    let ta : α := jNum j "ta" 0
+    let lam : α := jNum j "lambda" 1
+    let ph := jStr j "phase"
+    let (v0, i0, st0) := s.init ph
+    match relaxLoop s ph lam (jNat j "steps") v0 i0 st0 with
+    | .error e => Json.mkObj [("ok", false), ("error", errOut e)]
+    | .ok (v, i, st) =>
+      match s.fwdProp ph v i st with
+      | .error e => Json.mkObj [("ok", false), ("error", errOut e)]
+      | .ok (v', _) =>
+        let i' := s.backProp ph v' i st
+        let t := s.assemble ta [(ph, v, i, st)]
+        Json.mkObj ([("ok", Json.bool true), ("v", .arr (v.map Wire.out)), ("i", .arr (i.map Wire.out)),
+          ("F", .arr (v'.map Wire.out)), ("G", .arr (i'.map Wire.out))] ++ tableOut t)
+
 end
 end SysLoss
